@@ -216,8 +216,6 @@ impl<'store> Transposable<'store> for ResultTextSelectionSet<'store> {
                                     source_textselections.push(ResultTextSelection::Unbound(self.rootstore(), resource.as_ref() ,intersection.clone()));
                                 }
                             } else {
-                                source_side = Some(side_i);
-                                source_found = true; //source_side might have been pre-set so we need this extra flag
                                 if config.debug {
                                     let tmp = ResultTextSelection::Unbound(self.rootstore(), resource.as_ref() ,tsel.clone());
                                     eprintln!("[stam transpose] Found source fragment #{}: {:?} \"{}\" in \"{}\"", 
@@ -229,6 +227,10 @@ impl<'store> Transposable<'store> for ResultTextSelectionSet<'store> {
                                     source_textselections.push(ResultTextSelection::Unbound(self.rootstore(), resource.as_ref() ,intersection.clone()));
                                 }
                             }
+                            //the side in which the first part is found is the source side, also when there is a remainder:
+                            //all other parts must be found in this side too
+                            source_side = Some(side_i);
+                            source_found = true; //source_side might have been pre-set so we need this extra flag
                             found = true;
                             relative_offsets.push((refseqnr, relative_offset));
                             selectors_per_side[side_i].push(SelectorBuilder::TextSelector(
